@@ -230,7 +230,7 @@ def main():
             sigs = sorted(set(l.split("sig=")[1].split(" ")[0] for l in out.splitlines() if "sig=" in l and l.startswith("  clause")))
             rec = {"property": prop, "mutant": name, "check_rc": rc, "killed": rc == 1, "sigs": sigs[:4], "wall": round(time.time() - t0, 1)}
             if a.tests:
-                rc2, out2 = run(["/venv/bin/python", "-m", "pytest", "-q", "-p", "no:cacheprovider", "--timeout=900", "-x", "--deselect", "tests/pygradflow/test_params.py", "-k", "not MA57 and not Optimizing and not BoxReduced"], cwd=dst)
+                rc2, out2 = run(["/venv/bin/python", "-m", "pytest", "-q", "-p", "no:cacheprovider", "--timeout=100", "-x", "--deselect", "tests/pygradflow/test_params.py", "-k", "not MA57 and not Optimizing and not BoxReduced"], cwd=dst)
                 rec["tests_rc"] = rc2
                 rec["test_silent"] = rc2 == 0
                 rec["tests_tail"] = out2.strip().splitlines()[-1][:200] if out2.strip() else ""
